@@ -62,6 +62,62 @@ class Cont:
         return 'Cont(%s)' % self.token()
 
 
+class Seq(Cont):
+    """A container whose content is known: a concrete list of (symbolic) items.  Used by bounded-history rules, where the reader starts from the
+    constructed object; sizes are concrete integers and element accesses need concrete indexes."""
+
+    def __init__(self, base, items=(), fixed=False):
+        Cont.__init__(self, base, ())
+        self.items, self.fixed = tuple(items), fixed
+
+    def token(self):
+        return sp.Symbol('%s{%d items}' % (self.base, len(self.items)))
+
+    def with_op(self, *op):
+        it = list(self.items)
+        if op[0] == 'push' and not self.fixed:
+            it.append(op[1])
+        elif op[0] == 'pop' and not self.fixed:
+            if not it:
+                raise Unsupported('pop of an empty %s' % self.base)
+            it.pop(0)
+        elif op[0] == 'clear' and not self.fixed:
+            it = []
+        elif op[0] == 'store':
+            i = op[1]
+            if not (isinstance(i, (int, sp.Integer)) and 0 <= int(i) < len(it)):
+                raise Unsupported('store into %s at the index %s (size %d)' % (self.base, i, len(it)))
+            it[int(i)] = op[2]
+        elif op[0] == 'resize' and not self.fixed and isinstance(op[1], (int, sp.Integer)):
+            n = int(op[1])
+            it = it[:n] + [sp.Integer(0)] * (n - len(it))
+        else:
+            raise Unsupported('operation %s on the concrete container %s' % (op[0], self.base))
+        return Seq(self.base, it, self.fixed)
+
+    def size(self):
+        return sp.Integer(len(self.items))
+
+    def elem(self, idx):
+        if not (isinstance(idx, (int, sp.Integer)) and 0 <= int(idx) < len(self.items)):
+            raise Unsupported('read of %s at the index %s (size %d)' % (self.base, idx, len(self.items)))
+        return self.items[int(idx)]
+
+    def front(self):
+        if not self.items:
+            raise Unsupported('front() of an empty %s' % self.base)
+        return self.items[0]
+
+    def __eq__(self, o):
+        return isinstance(o, Seq) and (self.base, self.items) == (o.base, o.items)
+
+    def __hash__(self):
+        return hash((self.base, self.items))
+
+    def __repr__(self):
+        return 'Seq(%s, %d items)' % (self.base, len(self.items))
+
+
 def _opstr(o):
     return o[0] + '(' + ','.join(str(x) for x in o[1:]) + ')'
 
@@ -784,7 +840,7 @@ class Reader:
                             self.assign(lv, v, s2)
                             out.append((v, s2))
                         return out
-                cont = self.get_field(lv[1], st, obj['t']) if ots.startswith(CONTAINER_TYPES) else None
+                cont = self.get_field(lv[1], st, obj['t']) if (ots.startswith(CONTAINER_TYPES) or isinstance(st.fields.get(lv[1]), Cont)) else None
                 if isinstance(cont, Cont):
                     return self.container_call(lv[1], name, args, e, st, ctx)
         # repo function with a body: inline
